@@ -224,7 +224,7 @@ CHECKS = {
         quick=dict(shards=4, checks=40, budget_s=900),
         thorough=dict(shards=16, checks=300, budget_s=3300),
         level_text=('Grammar-generated schemas of the documented TL subset carry their own model: (1) tlparser.ParseSchema must extract exactly the declared names, ids, '
-                    'parameters and result types; (2) generating four times gives byte-identical files; (3) every generated package of a batch is compiled in a scratch '
+                    'parameters and result types; (2) generating four times gives byte-identical files, whether the output directory is empty or already holds longer or shorter files of the same names; (3) every generated package of a batch is compiled in a scratch '
                     'module; (4) a program linking the compiled packages compares the registry each declares with an independent reading of the schema text (same '
                     'comparison as C13: ids, field order/kinds, flag tags, FlagIndex, enum members, interface implementers); (5) the shipped schemes/api_latest.tl goes '
                     'through the same pipeline with its real ids; every other file under schemes/ is parsed for totality.'),
@@ -355,12 +355,12 @@ CHECKS = {
                     'by a probe request that must complete: every MTProto service constructor the client can be sent (pong, msgs_ack, new_session_created, bad_msg_notification, '
                     'msgs_state_info, msgs_all_info, msg_detailed_info, msg_new_detailed_info, future_salts, bad_server_salt for an unknown or an already answered message, a silent salt rotation), rpc_result / rpc_error for unknown ids, a repeated result for an answered '
                     'request, API objects as updates, unregistered constructor ids, truncated / empty / random bodies, empty and nested containers, gzip_packed around any object, '
-                    'content-related or not, and an orderly connection close (the server then expects a new connection whose frames are encrypted under the same key). Every event '
+                    'content-related or not, a well-formed value of every definition of mtproto.tl and of sampled API constructors (generated from the schema text, serialised by the reference codec), and an orderly connection close (the server then expects a new connection whose frames are encrypted under the same key). Every event '
                     'kind is also run alone in four wrappings.'),
         technique='history generation (rapid) + per-event enumeration against a scripted reference server with a live client per case; state inspection for a stopped loop',
         rule=('case = list of server events with wrapping flags; after each a probe. Non-trivial: at least one event other than pong/ack; distinct by hash of the event list.'),
         must_hit=['event:' + k for k in ('pong', 'ack', 'new-session', 'bad-msg', 'state-info', 'all-info', 'detailed-info', 'new-detailed-info', 'future-salts', 'result-unknown',
-                  'result-again', 'error-unknown', 'update', 'updates-too-long', 'unknown-ctor', 'truncated', 'empty-body', 'empty-container', 'nested-container', 'raw-soup', 'close', 'bad-salt-unknown', 'bad-salt-answered', 'rotate')] +
+                  'result-again', 'error-unknown', 'update', 'updates-too-long', 'unknown-ctor', 'truncated', 'empty-body', 'empty-container', 'nested-container', 'raw-soup', 'close', 'bad-salt-unknown', 'bad-salt-answered', 'rotate')] + ['schema-object:mtproto.tl', 'schema-object:api_latest.tl'] +
                  ['event-gzip-packed', 'event-in-container', 'handler-called', 'warning-surfaced', 'verdict:ok'],
         assumptions=['"close" is an orderly close (FIN); an abortive close (RST) is outside the statement - observed: the client then neither reconnects nor reports anything (noted in DESIGN.md)',
                      'a request made while the client swaps connections may fail with a write error; the probe after a close is repeated until the new connection is in use',
